@@ -308,6 +308,9 @@ func (p PrefixExpression) PrettyPrint(out *PrintState) *PrintState {
 	if needParen {
 		out.Print("(")
 	}
+	if lit := p.Literal(); out.last != "" && (lit[0] == '-' || lit[0] == '+') && out.last[len(out.last)-1] == lit[0] {
+		out.Print(" ") // a - -b must not become a--b
+	}
 	out.Print(p.Literal())
 	p.Right.PrettyPrint(out)
 	out.ExpressionPrecedence = oldPrecedence
@@ -593,14 +596,19 @@ func (hl MapLiteral) PrettyPrint(out *PrintState) *PrintState {
 	if out.Compact {
 		sep = ","
 	}
+	oldPrecedence := out.ExpressionPrecedence
 	for i, key := range hl.Order {
 		if i > 0 {
 			out.Print(sep)
 		}
+		// key:value is parsed as the : operator: lower precedence keys/values need their parentheses.
+		out.ExpressionPrecedence = Precedences[token.COLON]
 		key.PrettyPrint(out)
 		out.Print(":")
+		out.ExpressionPrecedence = Precedences[token.COLON] + 1
 		hl.Pairs[key].PrettyPrint(out)
 	}
+	out.ExpressionPrecedence = oldPrecedence
 	out.Print("}")
 	return out
 }
